@@ -4,6 +4,7 @@ import FstVerif.Model.Stream
 import FstVerif.Model.Ops
 import FstVerif.Model.Lev
 import FstVerif.Model.Merge
+import FstVerif.Model.Frontends
 import FstVerif.Spec.Format
 import FstVerif.Spec.Encode
 import FstVerif.Spec.Utf8
@@ -74,10 +75,32 @@ def parseGeom (s : String) : Nat × Nat :=
   | [r, c] => (r.toNat!, c.toNat!)
   | _ => (Gen.REGISTRY_ROWS, Gen.REGISTRY_COLS)
 
-def cmdBuild (st : DrvState) (ty : Nat) (geom : String) (mode : String) (ops : String) : DrvState × String :=
+def parseFE : String → Option FrontEnd
+  | "raw_iter" => some .rawIter | "raw_stream" => some .rawStream
+  | "map_iter" => some .mapIter | "map_stream" => some .mapStream
+  | "set_iter" => some .setIter | "set_stream" => some .setStream
+  | "map_from_iter" => some .mapFromIter | "set_from_iter" => some .setFromIter
+  | "raw_from_iter_map" => some .rawFromIterMap | "raw_from_iter_set" => some .rawFromIterSet
+  | "set_union_stream" => some .setUnionStream
+  | _ => none
+
+def kvOfCalls (cs : List Call) : KV :=
+  cs.map fun c => match c with
+    | .ins k v => (k, v)
+    | .add k => (k, 0)
+
+def cmdBuild (st : DrvState) (fe : String) (ty : Nat) (geom : String) (mode : String) (ops : String) : DrvState × String :=
   let (rows, cols) := parseGeom geom
   let calls := parseCalls ops
-  let (b, res) := runCalls (mode == "stop") calls (BState.new rows cols) []
+  -- batch entry points run their own call pattern (Model/Frontends.lean); single-call
+  -- entry points (raw / map / set) apply the calls one by one
+  let (b, res) : BState × List String :=
+    match (if mode == "stop" then parseFE fe else none) with
+    | some f =>
+      match f.runBatch (BState.new rows cols) (kvOfCalls calls) with
+      | (b, .ok ()) => (b, ["ok"])
+      | (b, .error e) => (b, [showBErr e])
+    | none => runCalls (mode == "stop") calls (BState.new rows cols) []
   let stopped := mode == "stop" && res.getLast? != some "ok" && !res.isEmpty
   let resS := if mode == "stop" then (if stopped then res.getLast?.getD "ok" else "ok") else ",".intercalate res
   if stopped then
@@ -398,7 +421,7 @@ def parseFull (s : String) : List (List (Nat × Nat)) :=
 def step (st : DrvState) (line : String) : DrvState × String :=
   let toks := (line.trimAscii.toString.splitOn " ").filter (· != "")
   match toks with
-  | "build" :: _fe :: ty :: geom :: mode :: rest => cmdBuild st ty.toNat! geom mode (rest.headD "")
+  | "build" :: fe :: ty :: geom :: mode :: rest => cmdBuild st fe ty.toNat! geom mode (rest.headD "")
   | ["load", hex] =>
     match arrayOfHex hex with
     | some bs => let (st', o) := openBytes st bs; (st', "load " ++ o)
